@@ -497,6 +497,76 @@ func init() {
 		}
 		return nil
 	})
+	// reflect.DeepEqual on the value shapes the repository uses it for (attribute lists, resource
+	// structs): slices by nil-ness, length and elements; structs and arrays field-wise; pointers by
+	// pointee; interfaces by dynamic type and value; everything else as ==
+	var deepEq func(p *Path, x, y Value, depth int) *Term
+	deepEq = func(p *Path, x, y Value, depth int) *Term {
+		if depth > 8 {
+			p.unsup("reflect.DeepEqual: nesting too deep")
+		}
+		switch a := x.(type) {
+		case IfaceV:
+			b, ok := y.(IfaceV)
+			if !ok {
+				p.unsup("reflect.DeepEqual iface vs %T", y)
+			}
+			if a.t == nil || b.t == nil {
+				return mkBool(a.t == nil && b.t == nil)
+			}
+			if !types.Identical(a.t, b.t) {
+				return tFalse
+			}
+			return deepEq(p, a.v, b.v, depth+1)
+		case SliceV:
+			b, ok := y.(SliceV)
+			if !ok {
+				p.unsup("reflect.DeepEqual slice vs %T", y)
+			}
+			if (a.c == nil) != (b.c == nil) || a.len != b.len {
+				return tFalse
+			}
+			if a.c == nil {
+				return tTrue
+			}
+			cs := []*Term{tTrue}
+			ae, be := a.elems(), b.elems()
+			for i := range ae {
+				cs = append(cs, deepEq(p, ae[i], be[i], depth+1))
+			}
+			return tAnd(cs...)
+		case StructV:
+			b := y.(StructV)
+			cs := []*Term{tTrue}
+			for i := range a.f {
+				cs = append(cs, deepEq(p, a.f[i], b.f[i], depth+1))
+			}
+			return tAnd(cs...)
+		case ArrayV:
+			b := y.(ArrayV)
+			cs := []*Term{tTrue}
+			for i := range a.e {
+				cs = append(cs, deepEq(p, a.e[i], b.e[i], depth+1))
+			}
+			return tAnd(cs...)
+		case PtrV:
+			b, ok := y.(PtrV)
+			if !ok {
+				return mkBool(a.c == nil && isNilValue(y))
+			}
+			if a.c == nil || b.c == nil {
+				return mkBool(a.c == nil && b.c == nil)
+			}
+			if a.c == b.c && samePath(a.path, b.path) {
+				return tTrue
+			}
+			return deepEq(p, a.load(), b.load(), depth+1)
+		case MapV, ChanV, FuncV:
+			p.unsup("reflect.DeepEqual on %T", x)
+		}
+		return p.valuesEqual(x, y)
+	}
+	reg("reflect.DeepEqual", func(p *Path, fn *ssa.Function, a []Value) Value { return deepEq(p, a[0], a[1], 0) })
 	// assembly helpers
 	reg("ext:internal/bytealg.IndexByteString", func(p *Path, fn *ssa.Function, a []Value) Value {
 		return p.indexByte(strBytes(a[0].(StrV)), a[1].(*Term))
